@@ -3,10 +3,12 @@
    (integer, variable, anonymous, declared constant, quoted string), for all tokens and constant tables;
    (2) the printer: Asp/Print.v reproduces the implementation's text for every element tree of the stream (correspondence),
    so "syntactically valid" is a statement about trees of Asp/Syntax.v.  Acceptance of the whole text by clingo/telingo and
-   safety (grounding) are decided per program by the oracle; the compile-level theorems (lex_ok / safe for the fragment)
-   are added with the compile model: partial. *)
-Require Import Coq.Strings.String Coq.Lists.List Coq.Bool.Bool.
-Require Import Cnl2aspV.Base.Str Cnl2aspV.Asp.Lex Cnl2aspV.Cnl.Values.
+   safety (grounding) are decided per program by the oracle;
+   (3) safety on the core fragment: every rule the compile model of Cnl/Core.v emits (tied byte-exactly to the implementation
+   on every run, here and in C01) is safe in gringo's sense, for every specification whose definitions and 'where' clauses use
+   labels of their own clauses (C06_core_fragment_safe).  Outside the core fragment safety is decided per program: partial. *)
+Require Import Coq.Strings.String Coq.Lists.List Coq.Bool.Bool Coq.ZArith.ZArith.
+Require Import Cnl2aspV.Base.Str Cnl2aspV.Asp.Lex Cnl2aspV.Cnl.Values Cnl2aspV.Cnl.Core Cnl2aspV.Cnl.CoreSafe.
 Import ListNotations.
 Open Scope string_scope.
 
@@ -20,4 +22,31 @@ Print Assumptions C06_values_lex_ok.
 Example C06_values_examples :
   convert_value ["k"] "k" = "k" /\ convert_value [] "ann" = """ann""" /\ convert_value [] "X1" = "X1"
   /\ convert_value [] "12" = "12" /\ convert_value [] "_" = "_" /\ convert_value [] "aB" = """aB""".
+Proof. vm_compute. repeat split. Qed.
+
+(* Safety, core fragment F0 (DESIGN 4.1): whenever the label a definition is about and the operands of a 'where' comparison
+   are labels of the sentence's own clauses (the property's hypothesis "every variable the author wrote occurs in a positive
+   concept occurrence of its sentence"), every rule of the compiled program is safe: each of its variables occurs in a
+   positive body atom or in 'V = constant', or -- for the element of a choice -- in the element's condition.  For every
+   specification, every number of sentences, clauses and 'is one of' values. *)
+Theorem C06_core_fragment_safe :
+  forall s : spec, forallb author_ok (sentences s) = true -> forallb safe_rule (compile s) = true.
+Proof. exact core_program_safe. Qed.
+Print Assumptions C06_core_fragment_safe.
+
+(* the hypothesis is met by a specification with every sentence kind, and it is needed: a 'where' operand that is no label of
+   the sentence gives an unsafe rule *)
+Example C06_core_safe_example :
+  let v := {| v_word := "host"; v_copula := false; v_prep := None |} in
+  let cl := {| cl_subj := "room"; cl_slabel := "R"; cl_neg := true; cl_verb := v; cl_obj := "shelf"; cl_olabel := "S" |} in
+  let cs := [{| c_name := "room"; c_key := "id"; c_dom := DRange 1 2 |}; {| c_name := "shelf"; c_key := "id"; c_dom := DEnum ["a"; "b"] |}] in
+  let good := {| concepts := cs;
+                 sentences := [SChoice {| ch_subj := "room"; ch_slabel := None; ch_verb := v; ch_card := CAtMost 1; ch_obj := "shelf";
+                                          ch_olabel := Some "S"; ch_foreach := None |};
+                               SDef "room" "R" "empty" [cl];
+                               SOneOf "R" [1; 2]%Z (SCons true [] [cl] (Some {| w_left := "R"; w_phrase := "different from"; w_right := "S" |}));
+                               SThere false true v "1" "a"] |} in
+  let bad := {| concepts := cs; sentences := [SCons false [] [cl] (Some {| w_left := "R"; w_phrase := "different from"; w_right := "Q" |})] |} in
+  forallb author_ok (sentences good) = true /\ length (compile good) = 8 /\
+  forallb author_ok (sentences bad) = false /\ forallb safe_rule (compile bad) = false.
 Proof. vm_compute. repeat split. Qed.
